@@ -1,6 +1,8 @@
-SPECIFICATION Spec
+SPECIFICATION SimSpec
 CONSTANTS
   Eprs = {"e1", "e2"}
+  LocalEprs = {"e1", "e2"}
+  DupAll = TRUE
   UnknownEpr = "e9"
   Versions = {1, 2, 3}
   MsgIds = {"m1", "m2", "m3"}
